@@ -108,3 +108,71 @@ def run_c10(ovdir, scratch, info, known, known_keys, tier, results, verdict, sel
     elif res["status"] is None:
         res["status"] = "success"
         verdict.passed.append(ph.name)
+
+
+class PseudoHarnessC12(object):
+    def __init__(self):
+        self.name = "c12_z3_rpc_calls_only"
+        self.encodes = ["PROTO_SMACK transition tables = output of the real proto_init() -> smack::Smack::compile() of this tree (dumped natively)",
+                        "step relation of smack::Smack::search_next / search_next_end (tied to the real code by c10_smack_step_proto)"]
+        self.bounds = ["all payloads of 0..=29 bytes (every byte symbolic), stream mode and datagram mode: 60 z3 queries (QF_BV): whenever the real matcher "
+                       "identifies ONC-RPC (UDP or TCP form) the message-type word of the payload is 0 (CALL); no class of payloads is excluded; "
+                       "two witnesses show that each RPC responder is reachable; longer payloads: the length lemma of c10_z3_tables"]
+        self.stubs = []
+        self.assumes = ["the dispatcher hands a payload to rpc::repl_udp / repl_tcp only when the matcher identified that protocol (proto::repl, decided by c10_dispatch_*)"]
+        self.out = ["what the RPC responder does with a message type other than 0 if it were ever handed one (it does not look at the field)"]
+        self.covers = []
+        self.known = []
+        self.file = os.path.join(VERIF, "lib", "c10_z3.py")
+
+
+def run_c12_rpc(ovdir, scratch, info, tier, results, verdict, sel):
+    """C12, ONC-RPC part: reply-typed ONC-RPC messages are never handed to the RPC responders."""
+    if "tables" not in info:
+        info["tables"] = ov_mod.dump_tables(ovdir, info["repo_src_sha256"])
+    budget = 600
+    t0 = time.time()
+    p = subprocess.run(["python3-vt", os.path.join(VERIF, "lib", "c10_z3.py"), info["tables"]["path"], str(budget), "c12"],
+                       stdout=subprocess.PIPE, stderr=subprocess.PIPE, universal_newlines=True, timeout=budget + 300)
+    ph = PseudoHarnessC12()
+    res = {"harness": ph.name, "status": None, "failed": [], "covers": {}, "stats": {}, "props": {}, "duration_s": round(time.time() - t0, 1)}
+    results[ph.name] = res
+    sel.append(ph)
+    try:
+        out = json.loads(p.stdout)
+    except Exception:
+        res["status"] = "inconclusive"
+        verdict.inconclusive.append("c12_z3_rpc_calls_only: engine produced no result: %s" % (p.stderr[-1500:]))
+        return
+    qs = out["queries"]
+    good = len([q for q in qs if (q["mode"] == "witness" and q["result"] == "sat") or (q["mode"] != "witness" and q["result"] == "unsat")])
+    res["props"] = {"total_properties": len(qs), "passed": good}
+    res["n_checks"] = len(qs)
+    res["stats"] = {"runtime_decision_procedure_s": round(sum(q.get("solver_s", 0) for q in qs), 2), "runtime_symex_s": out.get("encode_s"),
+                    "vccs_generated": len(qs)}
+    res["sample_checks"] = [{"description": "z3 %s mode, payload length %s: matcher identifies ONC-RPC although the message-type word is not CALL" % (q["mode"], q["length"]),
+                             "status": q["result"], "at": "lib/c10_z3.py"} for q in qs[-5:-2]]
+    res["covers"]["each RPC responder reachable"] = "Satisfied" if all(q["result"] == "sat" for q in qs if q["mode"] == "witness") and any(q["mode"] == "witness" for q in qs) else "Unsatisfiable"
+    if out.get("violations"):
+        res["status"] = "failed"
+        os.makedirs(os.path.join(VERIF, "replays"), exist_ok=True)
+        v = out["violations"][0]
+        real = native_real_id(ovdir, v["witness"], v["mode"])
+        w = bytes.fromhex(v["witness"])
+        is_call = (real == 6 and w[4:8] == b"\x00" * 4) or (real == 5 and w[8:12] == b"\x00" * 4)
+        path = os.path.join(VERIF, "replays", "C12-z3-rpc-%s-%d.json" % (v["mode"], v["length"]))
+        rep = {"property": "C12", "engine": "z3", "mode": v["mode"], "witness": v["witness"], "model_real": v["real"], "native_real": real,
+               "reference": None, "repo_head": info.get("repo_head"), "reproduced": real in (5, 6) and not is_call, "kind": "c12-rpc"}
+        json.dump(rep, open(path, "w"), indent=1)
+        res["failed"].append({"description": "C12: payload %s (%s mode) is identified as ONC-RPC (id %s) although its message type is not CALL" % (v["witness"], v["mode"], real),
+                              "at": "lib/c10_z3.py", "category": "z3"})
+        if rep["reproduced"]:
+            verdict.violations.append({"harness": ph.name, "replay": path, "failed": res["failed"][-1:]})
+        else:
+            verdict.inconclusive.append("c12_z3_rpc_calls_only: z3 witness %s did not reproduce on the real matcher (native id %s)" % (v["witness"], real))
+    elif out.get("inconclusive"):
+        res["status"] = "inconclusive"
+        verdict.inconclusive.append("c12_z3_rpc_calls_only: %s" % out["inconclusive"][:2])
+    else:
+        res["status"] = "success"
+        verdict.passed.append(ph.name)
